@@ -10,148 +10,148 @@ import (
 )
 
 func LoadPointer(addr *unsafe.Pointer) unsafe.Pointer {
-	vsched.StepK(vsched.KLoad)
+	vsched.At(unsafe.Pointer(addr)); vsched.StepK(vsched.KLoad)
 	return atomic.LoadPointer(addr)
 }
 func StorePointer(addr *unsafe.Pointer, v unsafe.Pointer) {
-	vsched.StepK(vsched.KStore)
+	vsched.At(unsafe.Pointer(addr)); vsched.StepK(vsched.KStore)
 	atomic.StorePointer(addr, v)
 }
 func CompareAndSwapPointer(addr *unsafe.Pointer, old, new unsafe.Pointer) bool {
-	vsched.StepK(vsched.KCas)
+	vsched.At(unsafe.Pointer(addr)); vsched.StepK(vsched.KCas)
 	return atomic.CompareAndSwapPointer(addr, old, new)
 }
 func SwapPointer(addr *unsafe.Pointer, new unsafe.Pointer) unsafe.Pointer {
-	vsched.StepK(vsched.KSwap)
+	vsched.At(unsafe.Pointer(addr)); vsched.StepK(vsched.KSwap)
 	return atomic.SwapPointer(addr, new)
 }
 
-func LoadInt32(addr *int32) int32         { vsched.StepK(vsched.KLoad); return atomic.LoadInt32(addr) }
-func StoreInt32(addr *int32, v int32)     { vsched.StepK(vsched.KStore); atomic.StoreInt32(addr, v) }
-func AddInt32(addr *int32, d int32) int32 { vsched.StepK(vsched.KAdd); return atomic.AddInt32(addr, d) }
+func LoadInt32(addr *int32) int32         { vsched.At(unsafe.Pointer(addr)); vsched.StepK(vsched.KLoad); return atomic.LoadInt32(addr) }
+func StoreInt32(addr *int32, v int32)     { vsched.At(unsafe.Pointer(addr)); vsched.StepK(vsched.KStore); atomic.StoreInt32(addr, v) }
+func AddInt32(addr *int32, d int32) int32 { vsched.At(unsafe.Pointer(addr)); vsched.StepK(vsched.KAdd); return atomic.AddInt32(addr, d) }
 func SwapInt32(addr *int32, v int32) int32 {
-	vsched.StepK(vsched.KSwap)
+	vsched.At(unsafe.Pointer(addr)); vsched.StepK(vsched.KSwap)
 	return atomic.SwapInt32(addr, v)
 }
 func CompareAndSwapInt32(addr *int32, old, new int32) bool {
-	vsched.StepK(vsched.KCas)
+	vsched.At(unsafe.Pointer(addr)); vsched.StepK(vsched.KCas)
 	return atomic.CompareAndSwapInt32(addr, old, new)
 }
 
-func LoadInt64(addr *int64) int64         { vsched.StepK(vsched.KLoad); return atomic.LoadInt64(addr) }
-func StoreInt64(addr *int64, v int64)     { vsched.StepK(vsched.KStore); atomic.StoreInt64(addr, v) }
-func AddInt64(addr *int64, d int64) int64 { vsched.StepK(vsched.KAdd); return atomic.AddInt64(addr, d) }
+func LoadInt64(addr *int64) int64         { vsched.At(unsafe.Pointer(addr)); vsched.StepK(vsched.KLoad); return atomic.LoadInt64(addr) }
+func StoreInt64(addr *int64, v int64)     { vsched.At(unsafe.Pointer(addr)); vsched.StepK(vsched.KStore); atomic.StoreInt64(addr, v) }
+func AddInt64(addr *int64, d int64) int64 { vsched.At(unsafe.Pointer(addr)); vsched.StepK(vsched.KAdd); return atomic.AddInt64(addr, d) }
 func SwapInt64(addr *int64, v int64) int64 {
-	vsched.StepK(vsched.KSwap)
+	vsched.At(unsafe.Pointer(addr)); vsched.StepK(vsched.KSwap)
 	return atomic.SwapInt64(addr, v)
 }
 func CompareAndSwapInt64(addr *int64, old, new int64) bool {
-	vsched.StepK(vsched.KCas)
+	vsched.At(unsafe.Pointer(addr)); vsched.StepK(vsched.KCas)
 	return atomic.CompareAndSwapInt64(addr, old, new)
 }
 
-func LoadUint32(addr *uint32) uint32     { vsched.StepK(vsched.KLoad); return atomic.LoadUint32(addr) }
-func StoreUint32(addr *uint32, v uint32) { vsched.StepK(vsched.KStore); atomic.StoreUint32(addr, v) }
+func LoadUint32(addr *uint32) uint32     { vsched.At(unsafe.Pointer(addr)); vsched.StepK(vsched.KLoad); return atomic.LoadUint32(addr) }
+func StoreUint32(addr *uint32, v uint32) { vsched.At(unsafe.Pointer(addr)); vsched.StepK(vsched.KStore); atomic.StoreUint32(addr, v) }
 func AddUint32(addr *uint32, d uint32) uint32 {
-	vsched.StepK(vsched.KAdd)
+	vsched.At(unsafe.Pointer(addr)); vsched.StepK(vsched.KAdd)
 	return atomic.AddUint32(addr, d)
 }
 func SwapUint32(addr *uint32, v uint32) uint32 {
-	vsched.StepK(vsched.KSwap)
+	vsched.At(unsafe.Pointer(addr)); vsched.StepK(vsched.KSwap)
 	return atomic.SwapUint32(addr, v)
 }
 func CompareAndSwapUint32(addr *uint32, old, new uint32) bool {
-	vsched.StepK(vsched.KCas)
+	vsched.At(unsafe.Pointer(addr)); vsched.StepK(vsched.KCas)
 	return atomic.CompareAndSwapUint32(addr, old, new)
 }
 
-func LoadUint64(addr *uint64) uint64     { vsched.StepK(vsched.KLoad); return atomic.LoadUint64(addr) }
-func StoreUint64(addr *uint64, v uint64) { vsched.StepK(vsched.KStore); atomic.StoreUint64(addr, v) }
+func LoadUint64(addr *uint64) uint64     { vsched.At(unsafe.Pointer(addr)); vsched.StepK(vsched.KLoad); return atomic.LoadUint64(addr) }
+func StoreUint64(addr *uint64, v uint64) { vsched.At(unsafe.Pointer(addr)); vsched.StepK(vsched.KStore); atomic.StoreUint64(addr, v) }
 func AddUint64(addr *uint64, d uint64) uint64 {
-	vsched.StepK(vsched.KAdd)
+	vsched.At(unsafe.Pointer(addr)); vsched.StepK(vsched.KAdd)
 	return atomic.AddUint64(addr, d)
 }
 func SwapUint64(addr *uint64, v uint64) uint64 {
-	vsched.StepK(vsched.KSwap)
+	vsched.At(unsafe.Pointer(addr)); vsched.StepK(vsched.KSwap)
 	return atomic.SwapUint64(addr, v)
 }
 func CompareAndSwapUint64(addr *uint64, old, new uint64) bool {
-	vsched.StepK(vsched.KCas)
+	vsched.At(unsafe.Pointer(addr)); vsched.StepK(vsched.KCas)
 	return atomic.CompareAndSwapUint64(addr, old, new)
 }
 
-func LoadUintptr(addr *uintptr) uintptr { vsched.StepK(vsched.KLoad); return atomic.LoadUintptr(addr) }
+func LoadUintptr(addr *uintptr) uintptr { vsched.At(unsafe.Pointer(addr)); vsched.StepK(vsched.KLoad); return atomic.LoadUintptr(addr) }
 func StoreUintptr(addr *uintptr, v uintptr) {
-	vsched.StepK(vsched.KStore)
+	vsched.At(unsafe.Pointer(addr)); vsched.StepK(vsched.KStore)
 	atomic.StoreUintptr(addr, v)
 }
 
 // Value mirrors atomic.Value.
 type Value struct{ v atomic.Value }
 
-func (x *Value) Load() interface{}   { vsched.StepK(vsched.KLoad); return x.v.Load() }
-func (x *Value) Store(v interface{}) { vsched.StepK(vsched.KStore); x.v.Store(v) }
+func (x *Value) Load() interface{}   { vsched.At(unsafe.Pointer(x)); vsched.StepK(vsched.KLoad); return x.v.Load() }
+func (x *Value) Store(v interface{}) { vsched.At(unsafe.Pointer(x)); vsched.StepK(vsched.KStore); x.v.Store(v) }
 func (x *Value) Swap(v interface{}) interface{} {
-	vsched.StepK(vsched.KSwap)
+	vsched.At(unsafe.Pointer(x)); vsched.StepK(vsched.KSwap)
 	return x.v.Swap(v)
 }
 func (x *Value) CompareAndSwap(old, new interface{}) bool {
-	vsched.StepK(vsched.KCas)
+	vsched.At(unsafe.Pointer(x)); vsched.StepK(vsched.KCas)
 	return x.v.CompareAndSwap(old, new)
 }
 
 // The typed atomics of Go 1.19+.
 type Int32 struct{ v atomic.Int32 }
 
-func (x *Int32) Load() int32        { vsched.StepK(vsched.KLoad); return x.v.Load() }
-func (x *Int32) Store(v int32)      { vsched.StepK(vsched.KStore); x.v.Store(v) }
-func (x *Int32) Add(d int32) int32  { vsched.StepK(vsched.KAdd); return x.v.Add(d) }
-func (x *Int32) Swap(v int32) int32 { vsched.StepK(vsched.KSwap); return x.v.Swap(v) }
+func (x *Int32) Load() int32        { vsched.At(unsafe.Pointer(x)); vsched.StepK(vsched.KLoad); return x.v.Load() }
+func (x *Int32) Store(v int32)      { vsched.At(unsafe.Pointer(x)); vsched.StepK(vsched.KStore); x.v.Store(v) }
+func (x *Int32) Add(d int32) int32  { vsched.At(unsafe.Pointer(x)); vsched.StepK(vsched.KAdd); return x.v.Add(d) }
+func (x *Int32) Swap(v int32) int32 { vsched.At(unsafe.Pointer(x)); vsched.StepK(vsched.KSwap); return x.v.Swap(v) }
 func (x *Int32) CompareAndSwap(o, n int32) bool {
-	vsched.StepK(vsched.KCas)
+	vsched.At(unsafe.Pointer(x)); vsched.StepK(vsched.KCas)
 	return x.v.CompareAndSwap(o, n)
 }
 
 type Int64 struct{ v atomic.Int64 }
 
-func (x *Int64) Load() int64        { vsched.StepK(vsched.KLoad); return x.v.Load() }
-func (x *Int64) Store(v int64)      { vsched.StepK(vsched.KStore); x.v.Store(v) }
-func (x *Int64) Add(d int64) int64  { vsched.StepK(vsched.KAdd); return x.v.Add(d) }
-func (x *Int64) Swap(v int64) int64 { vsched.StepK(vsched.KSwap); return x.v.Swap(v) }
+func (x *Int64) Load() int64        { vsched.At(unsafe.Pointer(x)); vsched.StepK(vsched.KLoad); return x.v.Load() }
+func (x *Int64) Store(v int64)      { vsched.At(unsafe.Pointer(x)); vsched.StepK(vsched.KStore); x.v.Store(v) }
+func (x *Int64) Add(d int64) int64  { vsched.At(unsafe.Pointer(x)); vsched.StepK(vsched.KAdd); return x.v.Add(d) }
+func (x *Int64) Swap(v int64) int64 { vsched.At(unsafe.Pointer(x)); vsched.StepK(vsched.KSwap); return x.v.Swap(v) }
 func (x *Int64) CompareAndSwap(o, n int64) bool {
-	vsched.StepK(vsched.KCas)
+	vsched.At(unsafe.Pointer(x)); vsched.StepK(vsched.KCas)
 	return x.v.CompareAndSwap(o, n)
 }
 
 type Uint32 struct{ v atomic.Uint32 }
 
-func (x *Uint32) Load() uint32         { vsched.StepK(vsched.KLoad); return x.v.Load() }
-func (x *Uint32) Store(v uint32)       { vsched.StepK(vsched.KStore); x.v.Store(v) }
-func (x *Uint32) Add(d uint32) uint32  { vsched.StepK(vsched.KAdd); return x.v.Add(d) }
-func (x *Uint32) Swap(v uint32) uint32 { vsched.StepK(vsched.KSwap); return x.v.Swap(v) }
+func (x *Uint32) Load() uint32         { vsched.At(unsafe.Pointer(x)); vsched.StepK(vsched.KLoad); return x.v.Load() }
+func (x *Uint32) Store(v uint32)       { vsched.At(unsafe.Pointer(x)); vsched.StepK(vsched.KStore); x.v.Store(v) }
+func (x *Uint32) Add(d uint32) uint32  { vsched.At(unsafe.Pointer(x)); vsched.StepK(vsched.KAdd); return x.v.Add(d) }
+func (x *Uint32) Swap(v uint32) uint32 { vsched.At(unsafe.Pointer(x)); vsched.StepK(vsched.KSwap); return x.v.Swap(v) }
 func (x *Uint32) CompareAndSwap(o, n uint32) bool {
-	vsched.StepK(vsched.KCas)
+	vsched.At(unsafe.Pointer(x)); vsched.StepK(vsched.KCas)
 	return x.v.CompareAndSwap(o, n)
 }
 
 type Uint64 struct{ v atomic.Uint64 }
 
-func (x *Uint64) Load() uint64         { vsched.StepK(vsched.KLoad); return x.v.Load() }
-func (x *Uint64) Store(v uint64)       { vsched.StepK(vsched.KStore); x.v.Store(v) }
-func (x *Uint64) Add(d uint64) uint64  { vsched.StepK(vsched.KAdd); return x.v.Add(d) }
-func (x *Uint64) Swap(v uint64) uint64 { vsched.StepK(vsched.KSwap); return x.v.Swap(v) }
+func (x *Uint64) Load() uint64         { vsched.At(unsafe.Pointer(x)); vsched.StepK(vsched.KLoad); return x.v.Load() }
+func (x *Uint64) Store(v uint64)       { vsched.At(unsafe.Pointer(x)); vsched.StepK(vsched.KStore); x.v.Store(v) }
+func (x *Uint64) Add(d uint64) uint64  { vsched.At(unsafe.Pointer(x)); vsched.StepK(vsched.KAdd); return x.v.Add(d) }
+func (x *Uint64) Swap(v uint64) uint64 { vsched.At(unsafe.Pointer(x)); vsched.StepK(vsched.KSwap); return x.v.Swap(v) }
 func (x *Uint64) CompareAndSwap(o, n uint64) bool {
-	vsched.StepK(vsched.KCas)
+	vsched.At(unsafe.Pointer(x)); vsched.StepK(vsched.KCas)
 	return x.v.CompareAndSwap(o, n)
 }
 
 type Bool struct{ v atomic.Bool }
 
-func (x *Bool) Load() bool       { vsched.StepK(vsched.KLoad); return x.v.Load() }
-func (x *Bool) Store(v bool)     { vsched.StepK(vsched.KStore); x.v.Store(v) }
-func (x *Bool) Swap(v bool) bool { vsched.StepK(vsched.KSwap); return x.v.Swap(v) }
+func (x *Bool) Load() bool       { vsched.At(unsafe.Pointer(x)); vsched.StepK(vsched.KLoad); return x.v.Load() }
+func (x *Bool) Store(v bool)     { vsched.At(unsafe.Pointer(x)); vsched.StepK(vsched.KStore); x.v.Store(v) }
+func (x *Bool) Swap(v bool) bool { vsched.At(unsafe.Pointer(x)); vsched.StepK(vsched.KSwap); return x.v.Swap(v) }
 func (x *Bool) CompareAndSwap(o, n bool) bool {
-	vsched.StepK(vsched.KCas)
+	vsched.At(unsafe.Pointer(x)); vsched.StepK(vsched.KCas)
 	return x.v.CompareAndSwap(o, n)
 }
 
